@@ -227,7 +227,7 @@ Definition covered_table : list (string * string * nat * string * list string) :
   ("x/distributor/keeper.Keeper.AllocateTokensToValidator", "panic", 3%nat, "Halt.allocate / pay_from_collector: the payout itself is covered (allocate_never_panics) but REACHABLE once IncreasePoolRewards has paid an over-credit out of the collector first: finding AllocateTokensToValidator:insufficient-funds (C06_overcredit_shortfall_refuted)", ["d166782fbccf4749"]);
   ("x/feeprocessing/keeper.Keeper.ProcessExecutionFeeReturn", "panic", 1%nat, "Halt.pay_from_collector: reachable only if the fee collector cannot cover the refund (collector_shortfall_panics; depends on C04/C10 over-crediting) -- not reproduced", ["7b1d547a1ad857eb"]);
   ("x/gov.processPoll", "panic", 1%nat, "the IsQuorum error no longer panics (fix 121883e, C06_poll_quorum_on_this_tree full strength); GetPoll error unreachable (polls are never deleted)", ["6a3c84943a00324c"]);
-  ("x/gov.processProposal", "panic", 1%nat, "the IsQuorum error no longer panics (fix 121883e, flag gov_proposal_quorum_error_panics = false, C06_proposal_quorum_on_this_tree full strength); remaining panic 'proposal was expected to exist': queue entries are written together with the proposal, proposals are never deleted", ["8627ca39f0fbd1bc"]);
+  ("x/gov.processProposal", "panic", 1%nat, "the IsQuorum error no longer panics (fix 121883e, flag gov_proposal_quorum_error_panics = false, C06_proposal_quorum_on_this_tree full strength); remaining panic 'proposal was expected to exist': queue entries are written together with the proposal, proposals are never deleted", ["13a1aac0655ccee0"]);
   ("x/gov/types.ProposalRouter.ApplyProposal", "panic", 1%nat, "Halt.apply_proposal: 'invalid proposal type' unreachable: SubmitProposal dry-runs ApplyProposal with the same content type first (input_only_panics_filtered), routes are fixed at start-up", ["9bc6600aa6c1ec7c"]);
   ("x/spending.ApplySpendingPoolWithdrawProposalHandler.Apply", "sub", 1%nat, "SafeSub + error since fix c12fc9f (flag withdraw_sub_unchecked = false, C06_withdraw_on_this_tree full strength)", ["542d2367ae4f108b"]);
   ("x/spending/keeper.Keeper.ClaimSpendingPool", "newcoin", 1%nat, "guarded since fix c12fc9f: amount.IsNegative() returns an error before NewCoin", ["51097e16338de442"]);
@@ -325,7 +325,7 @@ Definition audit_table : list (string * string * nat * string * list string) := 
   ("x/gov.SetProposalDurationsProposalHandler.Apply", "index", 1%nat, "map lookup or index bounded by the enclosing loop / length check", ["0e6b459a73be2ba8"]);
   ("x/gov.processEnactmentProposal", "panic", 1%nat, "unreachable: enactment queue entries are written with the proposal; proposals are never deleted", ["33eaf5d42df66f8d"]);
   ("x/gov.processPoll", "index", 1%nat, "map lookup or index bounded by the enclosing loop / length check", ["6a3c84943a00324c"]);
-  ("x/gov.processProposal", "index", 2%nat, "map lookup or index bounded by the enclosing loop / length check", ["8627ca39f0fbd1bc"]);
+  ("x/gov.processProposal", "index", 2%nat, "map lookup or index bounded by the enclosing loop / length check", ["13a1aac0655ccee0"]);
   ("x/gov/keeper.CheckIfAllowedPermission", "index", 4%nat, "map lookup or index bounded by the enclosing loop / length check", ["452c333de081d1b3"]);
   ("x/gov/keeper.Keeper.BlacklistRolePermission", "must", 1%nat, "decodes bytes (or re-parses an address) that this module stored itself with the matching Marshal -- audited by kind", ["563ce97cb08bc0d6"]);
   ("x/gov/keeper.Keeper.EnsureOldUniqueKeysNotRemoved", "index", 2%nat, "map lookup or index bounded by the enclosing loop / length check", ["651239798ba4401d"]);
@@ -424,18 +424,15 @@ Definition audit_table : list (string * string * nat * string * list string) := 
   ("x/multistaking/keeper.Keeper.ClaimRewards", "panic", 1%nat, "unreachable: guards a store / codec invariant (record written together with its index)", ["0cb64d180c28bba9"]);
   ("x/multistaking/keeper.Keeper.ClaimRewardsFromModule", "panic", 1%nat, "unreachable: guards a store / codec invariant (record written together with its index)", ["4cde2db996dac55d"]);
   ("x/multistaking/keeper.Keeper.GetAllStakingPools", "must", 1%nat, "decodes bytes (or re-parses an address) that this module stored itself with the matching Marshal -- audited by kind", ["5f060253f8e1c82a"]);
-  ("x/multistaking/keeper.Keeper.GetCompoundInfoByAddress", "must", 1%nat, "decodes bytes (or re-parses an address) that this module stored itself with the matching Marshal -- audited by kind", ["78c281e2ea9a0b9c"]);
   ("x/multistaking/keeper.Keeper.GetDelegatorRewards", "panic", 1%nat, "unreachable: guards a store / codec invariant (record written together with its index)", ["759deeebf729e036"]);
   ("x/multistaking/keeper.Keeper.GetStakingPoolByValidator", "must", 1%nat, "decodes bytes (or re-parses an address) that this module stored itself with the matching Marshal -- audited by kind", ["1a43f0719ed68279"]);
-  ("x/multistaking/keeper.Keeper.IncreasePoolRewards", "newcoin", 2%nat, "non-negative products", ["d230d63a957c9ea3"; "a11b046450bd2b1c"]);
-  ("x/multistaking/keeper.Keeper.IncreasePoolRewards", "quo", 1%nat, "guarded: shareToken.Amount.IsZero() => continue", ["d230d63a957c9ea3"; "a11b046450bd2b1c"]);
-  ("x/multistaking/keeper.Keeper.IncreasePoolRewards", "sub", 1%nat, "autoCompoundRewards is a sub-multiset of rewards by construction", ["d230d63a957c9ea3"; "a11b046450bd2b1c"]);
-  ("x/multistaking/keeper.Keeper.IncreasePoolRewards", "panic", 2%nat, "REACHABLE: panic(err) after the autocompound re-delegation: findings IncreasePoolRewards:not-active-validator / slashed-pool / not-allowed-staking-token (pending fix C06-autocompound-no-panic); the payout of an over-credit (Halt.credit_two) surfaces in the following AllocateTokensToValidator", ["d230d63a957c9ea3"; "a11b046450bd2b1c"]);
-  ("x/multistaking/keeper.Keeper.SetCompoundInfo", "must", 1%nat, "decodes bytes (or re-parses an address) that this module stored itself with the matching Marshal -- audited by kind", ["c6fceb728a4aee3b"]);
+  ("x/multistaking/keeper.Keeper.IncreasePoolRewards", "newcoin", 2%nat, "non-negative products", ["a11b046450bd2b1c"]);
+  ("x/multistaking/keeper.Keeper.IncreasePoolRewards", "quo", 1%nat, "guarded: shareToken.Amount.IsZero() => continue", ["a11b046450bd2b1c"]);
   ("x/multistaking/keeper.Keeper.SetStakingPool", "must", 1%nat, "decodes bytes (or re-parses an address) that this module stored itself with the matching Marshal -- audited by kind", ["0980cc29fad49e87"]);
   ("x/multistaking/keeper.Keeper.SlashStakingPool", "newcoin", 2%nat, "non-negative fractions", ["3659416c5742f268"]);
   ("x/multistaking/keeper.Keeper.SlashStakingPool", "sub", 3%nat, "fractions of the pool totals (slash in [0,1])", ["3659416c5742f268"]);
   ("x/multistaking/keeper.Keeper.SlashStakingPool", "panic", 3%nat, "reached from SlashValidator.Apply in the gov end-blocker (no dry run); since fix 27b0386 the keeper is shared and an empty burn is skipped: burn / transfer of fractions (slash in [0,1]) of module-held stake; slash-proposal histories (slash, unjail, activate, undelegate, rewards) complete", ["3659416c5742f268"]);
+  ("x/multistaking/keeper.Keeper.autocompoundRewards", "sub", 1%nat, "autoCompoundRewards is a sub-multiset of rewards by construction; runs on a cache context whose errors are discarded", ["194b1c772b6f588e"]);
   ("x/recovery/keeper.Keeper.ClaimRewards", "panic", 1%nat, "unreachable: guards a store / codec invariant (record written together with its index)", ["481ac89eced8ac7f"]);
   ("x/recovery/keeper.Keeper.GetRRTokenHolderRewards", "panic", 1%nat, "unreachable: guards a store / codec invariant (record written together with its index)", ["8279fa45ce06c49d"]);
   ("x/recovery/keeper.Keeper.GetRecoveryToken", "must", 1%nat, "decodes bytes (or re-parses an address) that this module stored itself with the matching Marshal -- audited by kind", ["68cd1241d1ebbd98"]);
@@ -506,8 +503,7 @@ Definition audit_table : list (string * string * nat * string * list string) := 
   ("x/upgrade.ApplySoftwareUpgradeProposalHandler.Apply", "assert", 1%nat, "proposal content assertion inside its own handler: the router dispatches on ProposalType() of the same content, so the dynamic type matches", ["e7cef7e89d6a7895"]);
   ("x/upgrade/keeper.Keeper.ApplyUpgradePlan", "index", 1%nat, "map lookup or index bounded by the enclosing loop / length check", ["9972c898b1ebca59"]);
   ("x/upgrade/keeper.Keeper.SaveCurrentPlan", "panic", 1%nat, "unreachable: guards a store / codec invariant (record written together with its index)", ["2375fe2d93f5e3c7"]);
-  ("x/upgrade/keeper.Keeper.setNextPlan", "panic", 1%nat, "unreachable: guards a store / codec invariant (record written together with its index)", ["d4933c66b4ada575"]);
-  ("x/multistaking/keeper.Keeper.autocompoundRewards", "sub", 1%nat, "(function added by the pending fix C06-autocompound-no-panic) autoCompoundRewards is a sub-multiset of rewards by construction; runs on a cache context whose errors are discarded", ["194b1c772b6f588e"])
+  ("x/upgrade/keeper.Keeper.setNextPlan", "panic", 1%nat, "unreachable: guards a store / codec invariant (record written together with its index)", ["d4933c66b4ada575"])
 ].
 
 Definition entry_matches (s : string * string * string * string * nat) (e : string * string * nat * string * list string) : bool :=
